@@ -1,5 +1,6 @@
 import Pxv.Lemmas.LifecyclePlan
 import Pxv.Lemmas.Transient
+import Pxv.Lemmas.Partition
 /-!
 C03 — constructor lifecycles are honoured at run time.
 
@@ -21,32 +22,8 @@ open Pxv.Scope
     prebuilt set and the depth of the dependency chains. -/
 theorem dedup_unique (lk : Nat → Option CDef) (pre : List Nat) (once : Life) (hne : once ≠ .transient)
     (fuel : Nat) (ins : List (Nat × Mode)) :
-    ((closureOf lk pre once fuel ins).1.idsOf once).Nodup := by
-  apply closureOf_preserves (fun cl => (cl.idsOf once).Nodup)
-  · intro cl ty m h; exact h
-  · intro cl c srcs h ht
-    show ((cl.push c srcs).1.idsOf once).Nodup
-    rw [idsOf_push]
-    have : c.life ≠ once := by rw [ht]; exact fun h => hne h.symm
-    simpa [this] using h
-  · intro cl c srcs h hl _ _ hf
-    show ((cl.push c srcs).1.idsOf once).Nodup
-    rw [idsOf_push]
-    simp only [hl, if_true]
-    rw [List.nodup_append]
-    refine ⟨h, by simp, ?_⟩
-    intro a ha b hb
-    simp only [List.mem_singleton] at hb
-    subst hb
-    intro hab
-    subst hab
-    rw [List.findIdx?_eq_none_iff] at hf
-    unfold Closure.idsOf at ha
-    simp only [List.mem_map, List.mem_filter] at ha
-    obtain ⟨n, ⟨hn, _⟩, hu⟩ := ha
-    have := hf n hn
-    simp [hu] at this
-  · simp [Closure.idsOf]
+    ((closureOf lk pre once fuel ins).1.idsOf once).Nodup :=
+  closure_dedup lk pre once hne fuel ins
 
 /-- every node of a call graph is a transient constructor, or a constructor of the de-duplicated
     lifecycle that is not prebuilt: the other long-lived lifecycle and the prebuilt components are
@@ -77,6 +54,29 @@ theorem nodes_lifecycle (lk : Nat → Option CDef) (pre : List Nat) (once : Life
     whatever part of it a request executes (early returns, failing constructors, error arms). -/
 theorem rs_once (p : Plan) (h : p.invariantsOk = true) (r : Run p) (x : Nat) : r.constructions x ≤ 1 :=
   Nat.le_trans (constructions_le_count r x) (count_le_one_of_invariants p h x)
+
+
+/-- **C03 — `enforce_invariants` never fires in a uniform pipeline** (↔ the cross-stage bookkeeping of
+    `RequestHandlerPipeline::new`, steps 2–3, is right): when the handler and the middlewares of a route resolve every
+    type alike, every request-scoped constructor gets a node in at most one closure of the pipeline — the closure of its
+    only user, or, when several components use it, the closure of the wrapping middleware of the earliest stage that
+    needs it, from where it reaches the others through the `Next` states. (`World`: constructor ids identify
+    constructors, dependency chains are shorter than the recursion depth; `StagesOk`: the components of the pipeline are
+    pairwise different and the synthetic wrapping middleware comes first — `stagesOk_group`.) -/
+theorem pipeline_partition {env : Env} {lk : Nat → Option CDef} {rank : Nat → Nat} {tyOf : Nat → Option Nat}
+    (w : World env lk rank tyOf) (chain : List Comp) (h : Comp)
+    (hu : UniformStages env lk (group chain [] [] h)) (hok : StagesOk (group chain [] [] h)) :
+    (plan env tyOf chain h).invariantsOk = true :=
+  pipeline_partition_lem w chain h hu hok
+
+/-- **C03 (request-scoped, once) without the guard**: in the pipeline pavexc builds for a route whose components
+    resolve types alike — the synthetic wrapping middleware `c0`, the chain `ms`, the handler `h`, all different —
+    every request-scoped constructor runs at most once per request, whatever part of the pipeline the request executes. -/
+theorem rs_once_uniform {env : Env} {lk : Nat → Option CDef} {rank : Nat → Nat} {tyOf : Nat → Option Nat}
+    (w : World env lk rank tyOf) (c0 : Comp) (ms : List Comp) (h : Comp) (hw : c0.isWrapping = true)
+    (hnd : (c0 :: ms ++ [h]).Nodup) (hun : Uniform env lk (c0 :: ms) h)
+    (r : Run (plan env tyOf (c0 :: ms) h)) (x : Nat) : r.constructions x ≤ 1 :=
+  rs_once _ (pipeline_partition w (c0 :: ms) h (uniformStages_of_uniform hun) (stagesOk_group c0 ms h hw hnd)) r x
 
 /-- **C03 (request-scoped, shared)**: in an accepted pipeline all values built by the request-scoped
     constructor `x` that reach any input of any component (handler, middlewares, constructors) are one
@@ -248,5 +248,13 @@ example : exPlan.builtAt = [(0, 1)] ∧ exPlan.invariantsOk = true ∧ exPlan.co
     (exPlan.comps[2]?.map (fun c => c.cl.nodes.map (fun n => n.ins.map (exPlan.origin 2)))) = some [[.node 1 0]] ∧
     exPlan.count 0 = 1 := by decide
 example : exPlan.isNodeOf (.node 1 0) 0 := ⟨⟨0, 0, .request, false, []⟩, by decide, rfl, rfl⟩
+
+
+-- Non-vacuity of `pipeline_partition` / `rs_once_uniform`: the example table makes a `World`, the example pipeline is
+-- uniform and well-shaped, so its guard passes by the theorem (and by evaluation, above)
+example : exPlan.invariantsOk = true :=
+  pipeline_partition (world_of_table exTab 5 (by decide) (by decide) (by decide) (by decide)) exChain exH
+    (uniformStages_of_uniform (fun _ _ => rfl))
+    (stagesOk_group ⟨.noop, 0, 5, []⟩ [⟨.wrap, 0, 1, [(0, .ref)]⟩, ⟨.pre, 1, 4, [(1, .ref)]⟩] exH rfl (by decide))
 
 end Pxv.Life
